@@ -87,6 +87,16 @@ theorem inv_run {w : World} (hI : Grid.Inv w) (ops : List Op) (h : PreAll w ops)
   | nil => exact hI
   | cons op r ih => exact ih (inv_step hI op h.1) h.2
 
+/-- **inv_fromgeo.**  A grid built from scratch by constructor-and-add calls — one `add_rocktype`,
+    `add_block`, `add_connection` per object, which is what `fromgeo` does and how the harness brings
+    the model to the state the real `fromgeo` produced (every such call is checked to be within `pre`
+    on every run) — is consistent. -/
+theorem inv_fromgeo (s : GridSpec) (h : PreAll World.empty (specOps s)) : Consistent (run World.empty (specOps s)) :=
+  consistent_of_inv (inv_run inv_empty _ h)
+
+example : PreAll World.empty (specOps ⟨[(['d'], 1)], [(['A'], ['d'], 1, none), (['B'], ['d'], 2, none)],
+    [(0, 1, ⟨3, 1, 1, 1, some (-1), none, none⟩)]⟩) := by decide
+
 /-- the property: after any sequence of (valid) edits from the empty grid, the grid is consistent -/
 theorem consistent_after_any_history (ops : List Op) (h : PreAll World.empty ops) :
     Consistent (run World.empty ops) :=
@@ -100,21 +110,6 @@ example : PreAll World.empty [.addRocktype ['r'] 1, .addBlock ['A'] ['r'] 8 none
     .embed ⟨[(['t'], 3)], [(['D'], ['t'], 1, none)], []⟩ ['A'] ['D'] ⟨1, 1, 1, 1, none, none, none⟩] := by decide +kernel
 
 /-! ### renaming with a one-to-one map loses no block -/
-
-theorem renameBlocks_eq {w : World} {m m1 : Dict Name Name} {fix : Bool} (hm : effectiveMap m fix = some m1) :
-    step w (.renameBlocks m fix) = { w := rebuildConnection (rebuildBlock (renameLoop m1 w w.blocklist)) } := by
-  unfold effectiveMap at hm
-  cases fix with
-  | false =>
-    simp only [Bool.false_eq_true, if_false, Option.some.injEq] at hm; subst hm
-    simp only [step, renameBlocks, Bool.false_eq_true, if_false, Out.ofR]
-  | true =>
-    simp only [if_true] at hm
-    cases hf : fixBlockMapping m with
-    | error e => rw [hf] at hm; cases hm
-    | ok m2 =>
-      rw [hf] at hm; simp only [Option.some.injEq] at hm; subst hm
-      simp only [step, renameBlocks, if_true, hf, Out.ofR]
 
 /-- **rename_loses_no_block.**  Let `m1` be the map `rename_blocks` really applies (the argument,
     after `fix_block_mapping` when requested).  If the renamed names of the grid's blocks are still
@@ -131,7 +126,7 @@ theorem rename_loses_no_block {w : World} (hI : Grid.Inv w) (m m1 : Dict Name Na
     (∀ n b, dget o.w.block n = some b ↔ b ∈ w.blocklist ∧ mapName m1 (w.bname b) = n) ∧
     (∀ k c, dget o.w.connection k = some c ↔ c ∈ w.connectionlist ∧ Proofs.Grid.mapKey m1 (w.ckey c) = k) := by
   intro o
-  have ho : o = { w := rebuildConnection (rebuildBlock (renameLoop m1 w w.blocklist)) } := renameBlocks_eq hm
+  have ho : o = { w := rebuildConnection (rebuildBlock (renameLoop m1 w w.blocklist)) } := Proofs.Grid.renameBlocks_eq hm
   obtain ⟨f1, _, f3, f4, f5, _⟩ := Proofs.Grid.renameWorld_facts hI m1 hnd
   rw [ho]
   refine ⟨rfl, f1, ?_, f4, f5⟩
